@@ -636,7 +636,9 @@ GROUPS = [("Scalar", ["splitmix", "wyrand", "xoshiro", "util"], "src/rng/{splitm
           ("ScalarFloat01", ["float01"], "src/distr/float01.rs"),
           ("ScalarUniformInt", ["uniform_int"], "src/distr/uniform/int.rs"),
           ("ScalarChaCha", ["chacha"], "src/rng/chacha.rs"),
-          ("ScalarStandard", ["standard"], "src/distr/{standard,alnum}.rs")]
+          ("ScalarStandard", ["standard"], "src/distr/{standard,alnum}.rs"),
+          ("ScalarDice", ["dice"], "src/distr/dice.rs"),
+          ("ScalarReadMock", ["readmock"], "src/rng/{read,mock}.rs")]
 
 
 def float01_samples(repo):
@@ -851,6 +853,50 @@ def std_char(repo):
             "def char_of (n : BitVec 32) : BitVec 32 :=\n  if %s then %s else n\nend standard\n" % (g, lo, hi, cond, v))
 
 
+def dice(repo):
+    """src/distr/dice.rs: `Dice::new(n)` must be `Dice(UniformInt::try_new_inclusive(<lo>, <hi>).unwrap())`, the constants
+    `Dice(UniformInt::constant(<base>, <range>))`, `sample` `self.0.sample(rand) as i32` (a u8 widened: zero extension)"""
+    text = re.sub(r"//[^\n]*", "", open(os.path.join(repo, "src/distr/dice.rs")).read())
+    flat = "".join(text.split())
+    if "pubstructDice(UniformInt<u8>);" not in flat:
+        raise TranslateError("dice.rs: Dice is not a wrapper of UniformInt<u8>")
+    m = re.search(r"pubfnnew\(n:u8\)->Dice\{Dice\(UniformInt::try_new_inclusive\((\w+),(\w+)\)\.unwrap\(\)\)\}", flat)
+    if not m:
+        raise TranslateError("dice.rs: Dice::new")
+    arg = lambda a: "n" if a == "n" else "%d#8" % int(a)
+    consts = re.findall(r"pubconst(D\d+):Dice=Dice\(UniformInt::constant\((\d+),(\d+)\)\);", flat)
+    if len(consts) != flat.count("pubconst"):
+        raise TranslateError("dice.rs: a constant of another shape")
+    if "fnsample<R:Rng+?Sized>(&self,rand:&mutRandom<R>)->i32{self.0.sample(rand)asi32}" not in flat:
+        raise TranslateError("dice.rs: sample is not `self.0.sample(rand) as i32`")
+    return ("namespace dice\ndef new_args (n : BitVec 8) : BitVec 8 × BitVec 8 := (%s, %s)\n\ndef consts : List (String × Nat × Nat) := [%s]\nend dice\n" % (
+        arg(m.group(1)), arg(m.group(2)), ", ".join('("%s", %s, %s)' % c for c in consts)))
+
+
+def read_mock(repo):
+    """src/rng/read.rs and mock.rs are glue around `io::Read::read_exact` / `Iterator::next`; their SHAPE is checked against the flattened
+    source text and the numbers in it are extracted: how many bytes each word method of `Read` reads and which integer it decodes
+    little-endian; that a failed read goes to the diverging `read_failed`; that `Mock` takes one word per draw (`as u32` = the low half),
+    fills through `util::rng_fill_bytes` and does not implement `jump`."""
+    rd = "".join(re.sub(r"//[^\n]*", "", open(os.path.join(repo, "src/rng/read.rs")).read()).split())
+    out = {}
+    for m, ty in (("next_u32", "u32"), ("next_u64", "u64")):
+        g = re.search(r"fn%s\(&mutself\)->%s\{letmutbuf=\[0u8;(\d+)\];ifletErr\(err\)=self\.reader\.read_exact\(&mutbuf\)\{read_failed\(err\);\}u(\d+)::from_le_bytes\(buf\)\}" % (m, ty), rd)
+        if not g:
+            raise TranslateError("read.rs: %s is not `let mut buf = [0u8; N]; if let Err(err) = self.reader.read_exact(&mut buf) { read_failed(err); } uM::from_le_bytes(buf)`" % m)
+        out[m] = (int(g.group(1)), int(g.group(2)))
+    for need, what in (("fnfill_bytes(&mutself,buf:&mut[MaybeUninit<u8>]){letbuf:&mut[u8]=unsafe{mem::transmute(buf)};ifletErr(err)=self.reader.read_exact(buf){read_failed(err);}}", "fill_bytes"),
+                       ("fnjump(&mutself){}", "jump"), ("fnread_failed(err:io::Error)->!{panic!(", "read_failed")):
+        if need not in rd:
+            raise TranslateError("read.rs: %s has another shape" % what)
+    mk = "".join(re.sub(r"//[^\n]*", "", open(os.path.join(repo, "src/rng/mock.rs")).read()).split())
+    for need, what in (("fnnext_u32(&mutself)->u32{self.0.next().unwrap()asu32}", "next_u32"), ("fnnext_u64(&mutself)->u64{self.0.next().unwrap()}", "next_u64"),
+                       ("fnfill_bytes(&mutself,buf:&mut[MaybeUninit<u8>]){util::rng_fill_bytes(self,buf);}", "fill_bytes"), ("fnjump(&mutself){unimplemented!()}", "jump")):
+        if need not in mk:
+            raise TranslateError("mock.rs: %s has another shape" % what)
+    return ("namespace readmock\ndef read_u32 : Nat × Nat := (%d, %d)\n\ndef read_u64 : Nat × Nat := (%d, %d)\n\ndef mock_shape_checked : Bool := true\nend readmock\n" % (out["next_u32"] + out["next_u64"]))
+
+
 def alnum(repo):
     """src/distr/alnum.rs: the table `ALNUM` (a byte string; its declared length must be its length) and one trip round the loop of
     `Distribution<char> for Alnum`: `let value = <expr of one next_u32>; if <cond> { break ALNUM[<idx>] as char; }` becomes
@@ -933,6 +979,10 @@ def generate(repo, out_dir, write):
                     parts.append(Unit(ns, os.path.join(repo, rel), wanted).lean())
             if "float01" in members:
                 parts.append(float01_samples(repo))
+            if "readmock" in members:
+                parts.append(read_mock(repo))
+            if "dice" in members:
+                parts.append(dice(repo))
             if "standard" in members:
                 parts.append(standard_prims(repo))
                 parts.append(std_char(repo))
